@@ -13,6 +13,7 @@ import (
 	"go/constant"
 	"go/token"
 	"go/types"
+	"os"
 	"sort"
 	"strings"
 
@@ -99,7 +100,6 @@ type roles struct {
 	top      *ssa.Function
 	why      string
 }
-
 
 // args builds the argument vector of a grammar function: receiver, then by type Node -> left, int -> prec, bool -> flag, string -> name.
 func (d *parserDom) argsFor(fn *ssa.Function, left AV, prec int64, flag bool) []AV {
@@ -196,6 +196,13 @@ func (d *parserDom) inferRoles() *roles {
 				asIs = true
 			}
 		}
+		if os.Getenv("JMESCHECK_DEBUG_ROLES") != "" {
+			fmt.Fprintf(os.Stderr, "role? %s built=%v nilOK=%v asIs=%v outs=%d aborted=%q\n", m.Name(), built, nilOK, asIs, len(outs), e.Aborted)
+			for _, o := range outs {
+				items, _, _ := d.consumed(o.St)
+				fmt.Fprintf(os.Stderr, "    cut=%v panic=%v res=%v items=%v\n", o.Cut, o.Panic, len(o.Res), items)
+			}
+		}
 		switch {
 		case takesOnlyNode && (built["IndexNode"] || built["IndexCurrentNode"] || built["SmallIndexCurrentNode"]):
 			set(&rl.index, m, "INDEX") // the bracket-specifier parser in the form that wraps slices in their projection itself
@@ -217,8 +224,8 @@ func (d *parserDom) inferRoles() *roles {
 					continue
 				}
 				items, _, _ := d.consumed(o.St)
-				if len(items) > 0 && items[len(items)-1].Ev == nil {
-					consumesCloser = true
+				if len(items) > 0 && items[len(items)-1].Ev == nil && items[len(items)-1].Type == "CloseSqBraceToken" {
+					consumesCloser = true // `)` closes an argument list: that is an arity helper, inlined where it is used
 				}
 			}
 			if consumesCloser {
@@ -923,7 +930,13 @@ func ruleTPrimary(p *Program, r *Reporter) {
 			}
 			items, _, _ := d.consumed(o.St)
 			rr := d.newRenderer(rl, o.St, nil, pw)
-			got[rr.line(items, o.Res[0], "")] = o.Ret.Pos()
+			line := rr.line(items, o.Res[0], "")
+			if line == "PRIMARY => $1" && d.nextBindsNoTighter(o.St, 5) {
+				// a short cut: the operand is returned as it is exactly when the operator loop, entered unforced at this
+				// power, would have returned it at once (its first test is the same comparison)
+				continue
+			}
+			got[line] = o.Ret.Pos()
 		}
 		compareLines(r, ef.Pos(), "parser."+ef.Name(), got, map[string]bool{"PRIMARY INFIX($1,5,false) => $2": true}, "the expression parser")
 	}
@@ -952,6 +965,31 @@ func ruleTPrimary(p *Program, r *Reporter) {
 		}
 		compareLines(r, pf.Pos(), key, got, want, "the projection parser")
 	}
+}
+
+// nextBindsNoTighter: the path has established that the binding power of the current token is at most power.
+func (d *parserDom) nextBindsNoTighter(st *State, power int64) bool {
+	cur, ok := st.load(avPtr{d.parserObj(st), "." + d.tokField[0] + "." + d.tokenElem[0]})
+	if !ok {
+		return false
+	}
+	ck := avKey(cur)
+	for _, c := range st.Conds {
+		cmp, ok := c.V.(avCmp)
+		if !ok {
+			continue
+		}
+		for _, side := range []AV{cmp.x, cmp.y} {
+			sy, ok := side.(avSym)
+			if !ok || sy.tag != "prec" || sy.payload == nil || avKey(sy.payload) != ck {
+				continue
+			}
+			if v, decided := st.decideInt(st.idOf(sy), token.LEQ, power); decided && v {
+				return true
+			}
+		}
+	}
+	return false
 }
 
 // ---------------------------------------------------------------- T-DELIMS
@@ -983,8 +1021,8 @@ func ruleTDelims(p *Program, r *Reporter) {
 		}},
 		{rl.selArr, "the multi-select list parser", true, func(child bool) map[string]bool {
 			return map[string]bool{
-				cur(child, "E(lo) CloseSqBrace => SelectArraySingle{C}Node{{CHILD}Field:$1}"):                          true,
-				cur(child, "E(lo) Comma E(lo) CloseSqBrace => SelectArray{C}Node{{CHILD}Fields:[$1,$2]}"):              true,
+				cur(child, "E(lo) CloseSqBrace => SelectArraySingle{C}Node{{CHILD}Field:$1}"):                            true,
+				cur(child, "E(lo) Comma E(lo) CloseSqBrace => SelectArray{C}Node{{CHILD}Fields:[$1,$2]}"):                true,
 				cur(child, "E(lo) Comma E(lo) Comma E(lo) CloseSqBrace => SelectArray{C}Node{{CHILD}Fields:[$1,$2,$3]}"): true,
 			}
 		}},
@@ -1143,7 +1181,6 @@ func checkKeyedList(line string, isLet, child bool) string {
 	}
 	return ""
 }
-
 
 // literalHelpers finds the functions that decode the text of the three literal tokens, by what the primary-expression
 // parser calls for each of them (not by name): "string", "quoted", "json".
